@@ -30,3 +30,15 @@ Theorem C15_reset_touches_one_cache :
          st_hits (ce_st e') = 0 /\ st_misses (ce_st e') = 0 /\ e' = set_st e (ce_st e')).
 Proof. exact stats_reset_frame. Qed.
 Print Assumptions C15_reset_touches_one_cache.
+
+(* concurrent half: the counters are atomic; every lookup performs exactly one increment (hit iff an
+   unexpired entry was found).  Whatever the interleaving and however the counters are laid out (one pair,
+   or several stripes summed by the reader), the numbers read afterwards are exact. *)
+From CL Require Import StatsConc.
+Theorem C15_exact_under_concurrency :
+  forall n ops, (0 < n)%nat ->
+    hits (fold_left record ops (fresh n)) = count_hits ops /\
+    misses (fold_left record ops (fresh n)) = count_misses ops /\
+    hits (fold_left record ops (fresh n)) + misses (fold_left record ops (fresh n)) = N.of_nat (length ops).
+Proof. exact stats_exact_under_concurrency. Qed.
+Print Assumptions C15_exact_under_concurrency.
